@@ -1166,3 +1166,55 @@ def judge(spec, sched, reported_buffers=None, reported_indicators=None, from_mod
                 vd.add("IND", "bounds", c.get("name"), tv(ok), val)
     vd.view = v
     return vd
+
+
+# =============================================================================================
+# objectives (C07)
+# =============================================================================================
+def objective_kind(o):
+    return "maximize" if o["type"].startswith("Maximize") or o["type"] == "TasksStartLatest" else "minimize"
+
+
+def objective_value(o, v, spec):
+    """documented value of one objective on the schedule viewed by v; None if not determined."""
+    t = o["type"]
+    names_all = [x["name"] for x in spec["tasks"]]
+    prio = lambda n: 1 if v.tspec[n].get("priority") is None else v.tspec[n]["priority"]
+    if t == "MinimizeMakespan":
+        sch = [n for n in names_all if v.sch(n)]
+        if len(sch) < len(names_all) or not sch:
+            return None  # where unscheduled tasks are parked must not matter; left open
+        return Fraction(max(v.end(n) for n in sch))
+    if t in ("Priorities", "TasksStartEarliest", "MinimizeFlowtime"):
+        names = names_all if t != "MinimizeFlowtime" or o.get("tasks") is None else o["tasks"]
+        tot = 0
+        for n in names:
+            if not v.sch(n):
+                continue
+            if t == "Priorities":
+                tot += v.end(n) * prio(n)
+            elif t == "TasksStartEarliest":
+                tot += v.start(n) * prio(n)
+            else:
+                tot += v.end(n)
+        return Fraction(tot)
+    if t in ("TasksStartLatest", "MinimizeGreatestStartTime"):
+        names = names_all if o.get("tasks") is None else o["tasks"]
+        if any(not v.sch(n) for n in names) or not names:
+            return None
+        vals = [v.start(n) for n in names]
+        return Fraction(min(vals) if t == "TasksStartLatest" else max(vals))
+    if t == "MaximizeResourceUtilization":
+        rng = indicator_value({"type": "ResourceUtilization", "res": o["res"]}, v, spec)
+        return None if rng is None else ("range", rng)
+    if t == "MinimizeResourceCost":
+        rng = indicator_value({"type": "ResourceCost", "ress": o["ress"]}, v, spec)
+        return None if rng is None else ("range", rng)
+    if t in ("MaximizeMaxBufferLevel", "MinimizeMaxBufferLevel"):
+        rng = indicator_value({"type": "MaxBufferLevel", "buffer": o["buffer"]}, v, spec)
+        return None if rng is None else ("range", rng)
+    if t in ("MinimizeIndicator", "MaximizeIndicator"):
+        i = next(x for x in spec["indicators"] if x["id"] == o["ind"])
+        rng = indicator_value(i, v, spec)
+        return None if rng is None else ("range", rng)
+    return None
